@@ -58,6 +58,14 @@ def sense_less_outcome(prog):
     return bad[0].raised.describe() if bad else None
 
 
+def _public(I, cmd, name):
+    """what the caller reads: cmd.<name> through the class's own property (not the private attribute)"""
+    try:
+        return I.get_attr(cmd, name, None, _F())
+    except PyRaise:
+        return cmd.attrs.get("_" + name)
+
+
 def exc_name(p):
     c = p.raised.exc_class() if not p.returned else None
     if c is not None:
@@ -174,7 +182,7 @@ def check_sgio(prog, run):
                 try:
                     I.call_function(ex, [dev, cmd], {"en_raw_sense": raw}, None, _F())
                 finally:
-                    I.event("final", cmd=cmd, raw=cmd.attrs.get("_raw_sense_data"))
+                    I.event("final", cmd=cmd, raw=_public(I, cmd, "raw_sense_data"))
                 return cmd
             paths = I.explore(t, max_paths=64)
         finally:
@@ -261,7 +269,7 @@ def check_iscsi(prog, run):
                 try:
                     I.call_function(ex, [dev, cmd], {"en_raw_sense": raw}, None, _F())
                 finally:
-                    I.event("final", cmd=cmd, raw=cmd.attrs.get("_raw_sense_data"), sense=cmd.attrs.get("_sense"))
+                    I.event("final", cmd=cmd, raw=_public(I, cmd, "raw_sense_data"), sense=_public(I, cmd, "sense"))
                 return cmd
             paths = I.explore(t, max_paths=128)
         finally:
@@ -390,7 +398,7 @@ def check_facade(prog, run):
                                       file, line, "pyscsi.pyscsi.scsi:SCSI.%s" % name)
                     elif p.returned:
                         cmd = p.value[0]
-                        rawv = cmd.attrs.get("_raw_sense_data") if isinstance(cmd, Instance) else None
+                        rawv = _public(I, cmd, "raw_sense_data") if isinstance(cmd, Instance) else None
                         if fspec["raw_sense"] and isinstance(rawv, External) and kind == "CHECK CONDITION":
                             run.ok("facade-passes-error-on", c, {"note": "raw sense requested and attached"})
                         else:
